@@ -255,7 +255,13 @@ def execOp (c : Ctx) (code : List Instr) (ins : Instr) (d : TData) (ctr : Nat) :
     else if b == 0x54 then                                                         -- SLOAD
       (match pop d with
        | .error e => fail d ctr e
-       | .ok (key, d1) => let (v, d2) := stLoad d1 key; pushOut d2 ctr v)
+       | .ok (key, d1) =>
+         let (v, d2) := stLoad d1 key
+         -- the storage builds its wrapper without the size limit; SLOAD applies it (repair of D17)
+         if v.recSize > c.cfg.valueLimit then
+           let (v', ctr1) := buildValue c ctr
+           pushOut d2 ctr1 v'
+         else pushOut d2 ctr v)
     else if b == 0x55 then                                                         -- SSTORE
       (match popN 2 d [] with
        | .error (e, d') => fail d' ctr e
